@@ -121,6 +121,22 @@ PROPS['C15'] = dict(
     level_text='Bounded symbolic model checking: each predicate is run on symbolic coefficients; every feasible outcome path (first non-zero coefficient at any position, first differing coefficient or grid point at any position) is followed and the returned truth value is proved equivalent to the specification under the path condition.',
     level_note='Exact reals; windows, orders, grid size enumerated to the bound; trusted: g++, libz3, sym.h/harness.h, oracle in C15_predicates.cpp.')
 
+PROPS['C08'] = dict(
+    engine='A', technique='symbolic-scalar execution of every multi-spline entry point on two grids with independent symbolic points (Grid::operator== forks decided by the solver) + QF_NRA obligations, exact-rational replay',
+    harnesses=[dict(name='C08_grids', src='C08_grids.cpp', pre_includes=['symt/stub'],
+                    defs=dict(quick=['-DMAXN=4'], thorough=['-DMAXN=5', '-DMORE_ORDERS']),
+                    functions=['Grid::operator==', 'Grid::operator!=', 'Support::hasSameGrid', 'Support::calcUnion', 'Support::calcIntersection', 'Spline::operator+', 'Spline::operator-',
+                               'Spline::operator*(Spline)', 'Spline::operator+=', 'Spline::operator-=', 'linearCombination', 'BilinearForm::evaluate', 'ScalarProduct', 'integration::integrate<n>',
+                               'SplineOperator::transform', 'operator*(Operator,Spline)', 'LinearForm::evaluate', 'BSplineGenerator(knots, grid)'])],
+    bounds=dict(quick='two grids of 2..4 points each, sizes independent, all points symbolic (every way of differing - one point moved anywhere, extra point at either end or inside, prefix/suffix, agreement on the region where the supports meet - is a model of a "different" path); 14 entry points; operand windows {empty, point-like, whole, left part, right part, interior interval}^2; order pairs (1,1), (2,0); linearCombination with the foreign spline at each of 3 positions',
+                thorough='grids of 2..5 points, order pairs (1,1), (2,0), (0,0), (2,2), (1,2)'),
+    outside='grids larger than the bound; for a bilinear form with a spline factor the refusal is demanded only when the integration domain has at least one interval (statement ambiguous otherwise)',
+    stubs=['symt/stub/boost/math/quadrature/gauss.hpp: exact 1-point Gauss-Legendre rule (node 0, weight 2) in place of boost tables'],
+    assumptions=['each grid strictly increasing reals', 'exact real arithmetic'],
+    trusted=A_TRUST,
+    level_text='Bounded symbolic model checking: both grids are symbolic, so one symbolic case covers all concrete pairs of grids of those sizes; the real equality test forks element by element; on every path each entry point must throw the differing-grids exception exactly when the path condition implies the grids differ, leave operands unchanged, and on equal-grid paths return the shared-instance result.',
+    level_note='Exact reals; grid sizes, windows, orders, entry points enumerated to the bound; trusted: g++, libz3, sym.h/harness.h, oracle in C08_grids.cpp, Gauss stub.')
+
 _NOT_BUILT = 'check not built yet in this round (planned, see DESIGN.md section 5)'
 NOT_APPLICABLE = {
     'C16': 'floating-point forward-error bound: bit-precise FP or (1+delta) NRA encodings of even the smallest instance return unknown/timeout on every installed solver (DESIGN.md section 7)',
